@@ -81,6 +81,47 @@ Example error_denies_ex :
             (Claims [108]) M_Write [65] [[109; 97]] = Allow.
 Proof. vm_compute. repeat split. Qed.
 
+(* a failing or cancelled authorization check never yields Allow: whatever set F of checks
+   fails (error from the control store, request context cancelled or past its deadline), a call
+   that the control store does not authorize is not authorized; and when every check the
+   decision rests on fails, the call is denied whatever the control store would have said *)
+Theorem fault_never_grants : forall g F cl m s mods,
+  authorize (with_fault g F) cl m s mods = Allow -> authorize g cl m s mods = Allow.
+Proof. exact AuthzProofs.fault_never_grants. Qed.
+Print Assumptions fault_never_grants.
+
+Theorem failing_checks_deny : forall g F cl m s mods,
+  F (OStore s) = true -> (forall x, In x mods -> F (OModule s x) = true) ->
+  is_allow (authorize (with_fault g F) cl m s mods) = false.
+Proof. exact AuthzProofs.failing_checks_deny. Qed.
+Print Assumptions failing_checks_deny.
+
+Theorem failing_module_check_denies : forall g F cl m s mods x,
+  (forall c, cl = Claims c -> g c (spec_relation m) (OStore s) <> Some true) ->
+  In x mods -> F (OModule s x) = true ->
+  is_allow (authorize (with_fault g F) cl m s mods) = false.
+Proof. exact AuthzProofs.failing_module_check_denies. Qed.
+Print Assumptions failing_module_check_denies.
+
+Theorem write_fault_never_grants : forall g k from cl s ls,
+  write_authorize_fault g k from cl s ls = Allow -> write_authorize g cl s ls = Allow.
+Proof. exact AuthzProofs.write_fault_never_grants. Qed.
+Print Assumptions write_fault_never_grants.
+(* caller "l" without any grant writes to module "ma": the module check (#2) fails, or the
+   context is cancelled when it is issued: denied.  Caller with the module grant: a failing
+   store-level check (#1) alone does not deny (module branch), a cancellation at #1 does. *)
+Example fault_ex :
+  let none : grant_oracle := fun _ _ _ => Some false in
+  let modg : grant_oracle := fun _ _ o => match o with OModule _ _ => Some true | _ => Some false end in
+  authorize_fault none 2 false (Claims [108]) M_Write [65] [[109; 97]] = Deny DModuleError /\
+  authorize_fault none 2 true (Claims [108]) M_Write [65] [[109; 97]] = Deny DModuleError /\
+  authorize_fault modg 1 false (Claims [108]) M_Write [65] [[109; 97]] = Allow /\
+  authorize_fault modg 1 true (Claims [108]) M_Write [65] [[109; 97]] = Deny DModuleError /\
+  authorize_fault modg 3 false (Claims [108]) M_Write [65] [[109; 97]] = Allow /\
+  fault_fires none 2 (Claims [108]) M_Write [65] [[109; 97]] = true /\
+  fault_fires none 2 (Claims [108]) M_Check [65] [] = false.
+Proof. vm_compute. repeat split; reflexivity. Qed.
+
 Theorem no_client_id_denied : forall g la cl,
   cl = NoClaims \/ cl = Claims [] ->
   (forall m s mods, authorize g cl m s mods = Deny DNoClient) /\
@@ -255,6 +296,25 @@ Proof. vm_compute. repeat split; reflexivity. Qed.
 Theorem list_stores_empty_guard_present : c26_list_stores_empty_guard = true.
 Proof. exact AuthzProofs.list_stores_empty_guard_present. Qed.
 Print Assumptions list_stores_empty_guard_present.
+
+(* listing from ANY continuation token (honest, stale, forged) on either backend returns only
+   accessible live stores; [all] is the live list in id order, p the position the token denotes *)
+Theorem list_stores_from_subset : forall sq g la cl name all p acc ids,
+  accessible_stores g la cl = Some acc ->
+  list_stores_from sq g la cl name all p = LSStores ids ->
+  forall s, In s ids -> In s acc /\ In s (map fst all).
+Proof. exact AuthzProofs.list_stores_from_subset. Qed.
+Print Assumptions list_stores_from_subset.
+(* the caller may get A only; a token pointing past A (position 2 of R, A, N) lists nothing *)
+Example list_stores_from_ex :
+  let g : grant_oracle := fun _ r _ => match r with R_CanCallListStores => Some true | _ => Some false end in
+  let la : list_oracle := fun _ => Some [[65]] in
+  let all := [([65], [97]); ([78], [110]); ([82], [114])] in
+  list_stores_from true g la (Claims [108]) [] all 0 = LSStores [[65]] /\
+  list_stores_from true g la (Claims [108]) [] all 1 = LSStores [] /\
+  list_stores_from false g la (Claims [108]) [] all 1 = LSStores [] /\
+  list_stores_from false g la (Claims [108]) [] all 0 = LSStores [[65]].
+Proof. vm_compute. repeat split; reflexivity. Qed.
 
 Theorem backend_list_stores_exact : forall ids name all st,
   ids <> [] ->
